@@ -300,6 +300,19 @@ Example ex_order_fact_matters :
   cli K (req [src1; divc; runsink] [] (Some (three_runs [1; 1; 1]%Z)) false true true) = (0%Z, [TraceFile; Printed StDryRun]).
 Proof. vm_compute. split; reflexivity. Qed.
 
+(* ---------- the gate is exactly as good as the required-key analysis of the inspection (C02) ---------- *)
+(* use before create: node 3 needs `factor`, which only node 4 creates; a file sink comes first *)
+Definition ubc_req : request :=
+  req [(mkNode (lib_src false) [("value", VNum 1)] None, TF); (mkNode lib_sink [("path", VStr "first.txt")] None, TF);
+       (mkNode (lib_mul false) [] None, TF); (mkNode lib_probe [] (Some "factor"), TF);
+       (mkNode lib_sink [("path", VStr "end.txt")] None, TF)] [] None false false true.
+Theorem C17_use_before_create_rejected_when : order_sensitive (k_iv knobs) = true ->
+  cli knobs ubc_req = (3%Z, [Printed StMissingKeys]).
+Proof. intro H. first [ (vm_compute in H; discriminate H) | (vm_compute; reflexivity) ]. Qed.
+Theorem C17_use_before_create_passes_gate_when : order_sensitive (k_iv knobs) = false ->
+  rejected_at knobs ubc_req = None /\ In (SinkWrote "first.txt") (snd (cli knobs ubc_req)) /\ fst (cli knobs ubc_req) = 4%Z.
+Proof. intro H. first [ (vm_compute in H; discriminate H) | (vm_compute; repeat split; tauto) ]. Qed.
+
 Print Assumptions C17_full.
 Print Assumptions C17_reject_no_effect.
 Print Assumptions C17_reject_exact.
@@ -314,3 +327,5 @@ Print Assumptions C17_run_space_dry_run.
 Print Assumptions C17_exit_zero_iff_all_completed.
 Print Assumptions C17_accepted_exit.
 Print Assumptions C17_stop_after_failure.
+Print Assumptions C17_use_before_create_rejected_when.
+Print Assumptions C17_use_before_create_passes_gate_when.
